@@ -63,8 +63,12 @@ def addData (world : Bounds α) (t : Table α) (g : Gr) (b : Bounds α) : Table 
 /-- `reset_bounds`: working bounds return to the leaves -/
 def resetBounds (t : Table α) : Table α := t.map fun r => { r with b := r.leaf }
 
-/-- `flush()` on a first-order table: every working bound becomes UNKNOWN, leaves are kept -/
+/-- overwrite every working bound, leaves are kept (`update_bounds(set(), fact, update_leaves=False)`) -/
 def flushB (b : Bounds α) (t : Table α) : Table α := t.map fun r => { r with b := b }
+
+/-- `flush()` (`b` = UNKNOWN) and `reset_world(b)`: every stored row is asserted to be `b`, working
+bound and leaf alike (`update_bounds(set(), fact, update_leaves=True)`) -/
+def assertAll (b : Bounds α) (t : Table α) : Table α := t.map fun r => ⟨r.g, b, b⟩
 
 end Table
 
